@@ -1,6 +1,7 @@
 from specs import KEYS, CHECKS, unit
 
 KEYS['keepbalance_c06'] = {'pkg': 'services/keep-balance'}
+KEYS['keepstore_c06'] = {'pkg': 'services/keepstore'}
 
 CHECKS['C06'] = {
     'ready': False,
@@ -12,5 +13,7 @@ CHECKS['C06'] = {
         unit('paging_lossy', 'keepbalance_c06', '^TestVerifC06PagingLossy$', {'shards': 4, 'checks': 100}, {'shards': 8, 'checks': 2000, 'timeout': 1500}),
         unit('sweep', 'keepbalance_c06', '^TestVerifC06SweepAbort$', {'shards': 16, 'checks': 3}, {'shards': 16, 'checks': 40, 'timeout': 1500}),
         unit('sweep_zero', 'keepbalance_c06', '^TestVerifC06SweepZeroCollections$', {'shards': 2, 'checks': 20}, {'shards': 4, 'checks': 200, 'timeout': 1500}),
+        unit('index_readers', 'keepbalance_c06', '^TestVerifC06IndexTruncation$', {'shards': 16, 'checks': 2}, {'shards': 16, 'checks': 32, 'timeout': 1500}),
+        unit('index_producer', 'keepstore_c06', '^TestVerifC06IndexProducer$', {'shards': 8, 'checks': 150}, {'shards': 16, 'checks': 3000, 'timeout': 1500}),
     ],
 }
